@@ -207,6 +207,10 @@ def w_align(ctx, rng, i):
             okfold = bool((np.sign(a2) == np.sign(b2)).all())
         if okfold:
             t.set_target(new)
+        # history: asking for the inverse (as every landmark-carrying image warp does) must leave the alignment intact
+        t.pseudoinverse()
+        align.judge_family(ctx, t, t.source.points.copy(), t.target.points.copy(), align.SHADOW.get(id(t), (None, {}))[1], "after_pseudoinverse")
+        judge_common(ctx, t, t.source.points.copy(), t.target.points.copy(), "after_pseudoinverse")
     else:
         src = gen.general_position(rng, n, d)
         L, tr = family_member(rng, kind, d, opts)
@@ -233,6 +237,8 @@ def w_align(ctx, rng, i):
         tgt2 = src @ L2.T + tr2 + (rng.normal(scale=noise, size=src.shape) if noise else 0)
         t.set_target(ms.PointCloud(tgt2))
         t.aligned_source(); t.alignment_error()
+        t.pseudoinverse()
+        align.judge_family(ctx, t, src, tgt2 if isinstance(tgt2, np.ndarray) else np.asarray(tgt2), opts, "after_pseudoinverse")
     ctx.count_case((kind, d, str(sorted(opts.items())), noise, mirrored_target, 0 if n < 6 else 1 if n < 15 else 2), nontrivial=True,
                    sample={"kind": kind, "dims": d, "options": opts, "noise": noise, "n_points": n, "mirrored_target": mirrored_target} if i < 8 else None)
 
